@@ -188,3 +188,53 @@ func VerifC09_ShareWeights() {
 	vr.Assert(sum == 0.0+weights["a"]+weights["b"] || sum == 0.0+weights["b"]+weights["a"], "C09.round-normaliser-is-the-sum-of-the-round-weights")
 	vr.Cover(weights["a"] == 0 && weights["b"] > 0, "C09.cover.usage-floors-a-weight-to-zero")
 }
+
+// VerifC09_OverQuotaTwoQueues: the whole over-quota division (divideOverQuotaResource: per-priority
+// rounds of divideUpToFairShare with floor rounding, then the remainder hand-out) on two sibling
+// queues whose over-quota weights and priorities are concrete menu entries (so the weighted product
+// is symbolic x constant, IEEE semantics in the FP theory) and whose requests and the surplus are
+// symbolic integers.
+// BOUND: 2 queues, no limits, no quota; over-quota weights in {1,2} each; same or different priority; k-value 0; surplus and requests symbolic integers < 2^3 (quick) / 2^5 (thorough)
+func VerifC09_OverQuotaTwoQueues() {
+	res := rs.GpuResource
+	bits := vr.Bound("overQuotaBits", 3, 5)
+	total := vr.AnyFloatNat("surplus", bits)
+	vr.Assume(total > 0)
+	queues := map[common_info.QueueID]*rs.QueueAttributes{}
+	var list []*rs.QueueAttributes
+	for i, name := range []string{"a", "b"} {
+		q := &rs.QueueAttributes{UID: common_info.QueueID(name), Name: name}
+		s := q.ResourceShare(res)
+		s.Deserved, s.MaxAllowed, s.FairShare = 0, -1, 0
+		s.Request = vr.AnyFloatNat(name+".request", bits)
+		s.OverQuotaWeight = float64(vr.Choose(name+".weight", 2) + 1)
+		if i == 1 {
+			q.Priority = vr.Choose("b.priority", 2)
+		}
+		queues[q.UID] = q
+		list = append(list, q)
+	}
+	left := divideOverQuotaResource(total, 0, queues, res)
+	a, b := list[0].ResourceShare(res), list[1].ResourceShare(res)
+	vr.Observe("a", a.FairShare)
+	vr.Observe("b", b.FairShare)
+	vr.Observe("left", left)
+	vr.Assert(a.FairShare >= 0 && b.FairShare >= 0, "C09.surplus-grants-non-negative")
+	vr.Assert(a.FairShare < a.Request+1 && b.FairShare < b.Request+1, "C09.fair-share-exceeds-request-by-less-than-a-unit")
+	vr.Assert(left >= 0 && a.FairShare+b.FairShare+left == total, "C09.surplus-handed-out-never-exceeds-what-is-left")
+	if left > 0 {
+		vr.Assert(a.FairShare >= a.Request && b.FairShare >= b.Request, "C09.surplus-stays-only-if-every-weighted-queue-is-satisfied")
+	}
+	if list[1].Priority > list[0].Priority && b.FairShare < b.Request {
+		vr.Assert(a.FairShare < 1, "C09.lower-priority-gets-at-most-the-rounding-remainder")
+	}
+	if list[1].Priority == list[0].Priority && a.FairShare < a.Request && b.FairShare < b.Request {
+		if a.OverQuotaWeight >= b.OverQuotaWeight {
+			vr.Assert(a.FairShare >= b.FairShare-1, "C09.surplus-monotone-in-weight-up-to-one-unit")
+		}
+		if b.OverQuotaWeight >= a.OverQuotaWeight {
+			vr.Assert(b.FairShare >= a.FairShare-1, "C09.surplus-monotone-in-weight-up-to-one-unit")
+		}
+	}
+	vr.Cover(a.FairShare > 0 && b.FairShare > 0 && left == 0, "C09.cover.both-queues-get-surplus")
+}
